@@ -310,14 +310,14 @@ Qed.
 
 (* for word in word_list: one section and one mask per word *)
 Lemma words_loop_sim (s : str) {R L' : Type}
-  (wb : Z -> str -> list section * list str * Z -> ctl R (list section * list str * Z) (list section * list str * Z)) :
+  (wb : Z -> str -> Z * list section * list str -> ctl R (Z * list section * list str) (Z * list section * list str)) :
   (forall pos word parsing mask_list cs,
-     wb pos word (parsing, mask_list, cs) =
-     Next (parsing ++ [(slice s cs (cs + len word), Some (LA (len word)))],
-           mask_list ++ [case_mask isupper (slice s cs (cs + len word))], cs + len word)) ->
+     wb pos word (cs, parsing, mask_list) =
+     Next (cs + len word, parsing ++ [(slice s cs (cs + len word), Some (LA (len word)))],
+           mask_list ++ [case_mask isupper (slice s cs (cs + len word))])) ->
   forall words pos parsing mask_list cs,
-  exists cs', for_from (L' := L') pos words (parsing, mask_list, cs) wb =
-    Next (parsing ++ fst (alpha_words isupper s cs words), mask_list ++ snd (alpha_words isupper s cs words), cs').
+  exists cs', for_from (L' := L') pos words (cs, parsing, mask_list) wb =
+    Next (cs', parsing ++ fst (alpha_words isupper s cs words), mask_list ++ snd (alpha_words isupper s cs words)).
 Proof.
   intros H. induction words as [|w r IH]; intros pos parsing mask_list cs; cbn [for_from alpha_words].
   - exists cs. now rewrite !app_nil_r.
@@ -487,7 +487,7 @@ Qed.
 (* the state of a *_detection loop is (section_list, found list, index) *)
 Ltac driver_body_start :=
   let sl := fresh "sl" in let fl := fresh "fl" in let idx := fresh "idx" in let Hg := fresh "Hg" in
-  intros [[sl fl] idx] done x rest acc Hg; cbn in Hg; injection Hg as -> -> ->;
+  intros [[idx sl] fl] done x rest acc Hg; cbn in Hg; injection Hg as -> -> ->;
   unfold goes_on; cbv beta iota zeta; unfold sub_l; rewrite !lget_mid;
   destruct x as [s [l|]]; cbn [snd fst is_none bind].
 Ltac goes_on_now := eexists; split; [left; reflexivity|reflexivity] || (eexists; split; [right; reflexivity|reflexivity]).
@@ -501,17 +501,18 @@ Proof.
   unfold py_digit_detection, drive_all. cbv zeta.
   match goal with |- context [while_ _ _ ?c ?b] => set (wcond := c); set (wbody := b) end.
   pose proof (driver_sim str (list str) _ _ Empty_set (detect_digits isdigit) false
-                (fun a f => a ++ [f]) (fun st => st) wcond wbody) as H.
+                (fun a f => a ++ [f]) (fun '(idx, sl, fl) => (sl, fl, idx)) wcond wbody) as H.
   match type of H with ?A -> ?B -> _ => assert (Hc : A); [|assert (Hb : B)] end.
-  { unfold wcond. intros [[sl0 fl] idx] ? ? ? E. injection E as -> -> ->. reflexivity. }
+  { unfold wcond. intros [[idx sl0] fl] ? ? ? E. injection E as -> -> ->. reflexivity. }
   { unfold wbody. driver_body_start; [goes_on_now|].
     rewrite py_detect_digits_eq. cbn [fst]. destruct (detect_digits isdigit s) as [| |p f]; cbn [py_of_dres call].
     - reflexivity.
     - goes_on_now.
     - cbn [is_none negb call pv_list]. rewrite ldel_mid. cbn [call]. rewrite lins_mid. goes_on_now. }
-  specialize (H Hc Hb (drive_fuel sl) sl [] (sl, [], 0) [] eq_refl).
+  specialize (H Hc Hb (drive_fuel sl) sl [] (0, sl, []) [] eq_refl).
   destruct (drive (detect_digits isdigit) false (drive_fuel sl) sl) as [[out fs]|].
-  - destruct H as (st' & i & -> & Hg). cbv beta in Hg. subst st'. cbn [bind run app]. now rewrite fold_append.
+  - destruct H as (st' & i & -> & Hg). destruct st' as [[idx' sl'] fl']. injection Hg as -> -> _.
+    cbn [bind run app]. now rewrite fold_append.
   - now rewrite H.
 Qed.
 
@@ -537,13 +538,14 @@ Proof.
   unfold py_year_detection, drive_all. cbv zeta.
   match goal with |- context [while_ _ _ ?c ?b] => set (wcond := c); set (wbody := b) end.
   pose proof (driver_sim str (list str) _ _ Empty_set (detect_year isdigit year_prefixes) true
-                (fun a f => a ++ [f]) (fun st => st) wcond wbody) as H.
+                (fun a f => a ++ [f]) (fun '(idx, sl, fl) => (sl, fl, idx)) wcond wbody) as H.
   match type of H with ?A -> ?B -> _ => assert (Hc : A); [|assert (Hb : B)] end.
-  { unfold wcond. intros [[sl0 fl] idx] ? ? ? E. injection E as -> -> ->. reflexivity. }
+  { unfold wcond. intros [[idx sl0] fl] ? ? ? E. injection E as -> -> ->. reflexivity. }
   { unfold wbody. driver_body_start; [goes_on_now|]. truthy_driver py_detect_year_eq py_detect_year. }
-  specialize (H Hc Hb (drive_fuel sl) sl [] (sl, [], 0) [] eq_refl).
+  specialize (H Hc Hb (drive_fuel sl) sl [] (0, sl, []) [] eq_refl).
   destruct (drive (detect_year isdigit year_prefixes) true (drive_fuel sl) sl) as [[out fs]|].
-  - destruct H as (st' & i & -> & Hg). cbv beta in Hg. subst st'. cbn [bind run app]. now rewrite fold_append.
+  - destruct H as (st' & i & -> & Hg). destruct st' as [[idx' sl'] fl']. injection Hg as -> -> _.
+    cbn [bind run app]. now rewrite fold_append.
   - now rewrite H.
 Qed.
 
@@ -558,14 +560,15 @@ Proof.
   unfold py_context_sensitive_detection, drive_all. cbv zeta.
   match goal with |- context [while_ _ _ ?c ?b] => set (wcond := c); set (wbody := b) end.
   pose proof (driver_sim str (list str) _ _ Empty_set (detect_context isdigit context_strings) true
-                (fun a f => a ++ [f]) (fun st => st) wcond wbody) as H.
+                (fun a f => a ++ [f]) (fun '(idx, sl, fl) => (sl, fl, idx)) wcond wbody) as H.
   match type of H with ?A -> ?B -> _ => assert (Hc : A); [|assert (Hb : B)] end.
-  { unfold wcond. intros [[sl0 fl] idx] ? ? ? E. injection E as -> -> ->. reflexivity. }
+  { unfold wcond. intros [[idx sl0] fl] ? ? ? E. injection E as -> -> ->. reflexivity. }
   { unfold wbody. driver_body_start; [goes_on_now|].
     truthy_driver py_detect_context_sensitive_eq py_detect_context_sensitive. }
-  specialize (H Hc Hb (drive_fuel sl) sl [] (sl, [], 0) [] eq_refl).
+  specialize (H Hc Hb (drive_fuel sl) sl [] (0, sl, []) [] eq_refl).
   destruct (drive (detect_context isdigit context_strings) true (drive_fuel sl) sl) as [[out fs]|].
-  - destruct H as (st' & i & -> & Hg). cbv beta in Hg. subst st'. cbn [bind run app]. now rewrite fold_append.
+  - destruct H as (st' & i & -> & Hg). destruct st' as [[idx' sl'] fl']. injection Hg as -> -> _.
+    cbn [bind run app]. now rewrite fold_append.
   - now rewrite H.
 Qed.
 
@@ -585,26 +588,47 @@ Theorem py_alpha_detection_eq (sl : list section) :
 Proof.
   unfold py_alpha_detection, drive_all. cbv zeta.
   match goal with |- context [while_ _ _ ?c ?b] => set (wcond := c); set (wbody := b) end.
-  pose proof (driver_sim (list str * list str) (list str * list str) _ _ Empty_set
-                (detect_alpha isalpha isupper lower_c true mwparse) false
-                (fun acc f => (fst acc ++ fst f, snd acc ++ snd f))
-                (fun '(section_list, alpha_list, mask_list, index) => (section_list, (alpha_list, mask_list), index))
-                wcond wbody) as H.
-  match type of H with ?A -> ?B -> _ => assert (Hc : A); [|assert (Hb : B)] end.
-  { unfold wcond. intros [[[sl0 al] ml] idx] ? ? ? E. injection E as E1 E2 E3. subst. reflexivity. }
-  { unfold wbody. intros [[[sl0 al] ml] idx] done x rest acc Hg. cbn in Hg. injection Hg as E1 E2 E3. subst sl0 acc idx.
-    unfold goes_on. cbv beta iota zeta. unfold sub_l. rewrite !lget_mid.
-    destruct x as [s [l|]]; cbn [snd fst is_none bind]; [goes_on_now|].
-    pose proof (py_detect_alpha_eq isalpha isupper lower_c mwparse (s, None)) as E. cbn [fst] in E. rewrite <- E. clear E.
-    destruct (py_detect_alpha isalpha isupper lower_c mwparse (s, None)) as [[[pvv [[|w ws]|]] ms]|];
-      cbn [dres_alpha nonempty call truthy]; [goes_on_now| |goes_on_now|reflexivity].
-    destruct ms as [m|]; cbn [call]; [|destruct pvv; reflexivity].
-    rewrite ldel_mid. destruct pvv; cbn [call pv_list bind]; [reflexivity|]. rewrite lins_mid. goes_on_now. }
-  specialize (H Hc Hb (drive_fuel sl) sl [] (sl, [], [], 0) ([], []) eq_refl).
-  destruct (drive (detect_alpha isalpha isupper lower_c true mwparse) false (drive_fuel sl) sl) as [[out fs]|].
-  - destruct H as (st' & i & -> & Hg). destruct st' as [[[sl' al] ml] idx]. rewrite fold_extend2 in Hg.
-    injection Hg as -> -> -> _. reflexivity.
-  - now rewrite H.
+  (* alpha_list and mask_list have the same type: their order in the tuple of loop-carried variables is the
+     order in which the source binds them first; the same script for either layout *)
+  first
+  [
+    pose proof (driver_sim (list str * list str) (list str * list str) _ _ Empty_set
+                  (detect_alpha isalpha isupper lower_c true mwparse) false
+                  (fun acc f => (fst acc ++ fst f, snd acc ++ snd f))
+                  (fun '(index, section_list, alpha_list, mask_list) => (section_list : list section, (alpha_list : list str, mask_list : list str), index : Z)) wcond wbody) as H;
+    match type of H with ?A -> ?B -> _ => assert (Hc : A); [|assert (Hb : B)] end;
+    [ unfold wcond; intros [[[idx sl0] l1] l2] ? ? ? E; injection E as E1 E2 E3; subst; reflexivity
+    | unfold wbody; intros [[[idx sl0] l1] l2] done x rest acc Hg; cbn in Hg; injection Hg as E1 E2 E3; subst sl0 acc idx;
+      unfold goes_on; cbv beta iota zeta; unfold sub_l; rewrite !lget_mid;
+      destruct x as [s [l|]]; cbn [snd fst is_none bind]; [goes_on_now|];
+      pose proof (py_detect_alpha_eq isalpha isupper lower_c mwparse (s, None)) as E; cbn [fst] in E; rewrite <- E; clear E;
+      destruct (py_detect_alpha isalpha isupper lower_c mwparse (s, None)) as [[[pvv [[|w ws]|]] ms]|];
+        cbn [dres_alpha nonempty call truthy]; [goes_on_now| |goes_on_now|reflexivity];
+      destruct ms as [m|]; cbn [call]; rewrite ?ldel_mid; destruct pvv; cbn [call pv_list bind]; rewrite ?ldel_mid;
+        cbn [call pv_list bind]; try reflexivity; rewrite lins_mid; goes_on_now
+    | ]
+  |
+    pose proof (driver_sim (list str * list str) (list str * list str) _ _ Empty_set
+                  (detect_alpha isalpha isupper lower_c true mwparse) false
+                  (fun acc f => (fst acc ++ fst f, snd acc ++ snd f))
+                  (fun '(index, section_list, mask_list, alpha_list) => (section_list : list section, (alpha_list : list str, mask_list : list str), index : Z)) wcond wbody) as H;
+    match type of H with ?A -> ?B -> _ => assert (Hc : A); [|assert (Hb : B)] end;
+    [ unfold wcond; intros [[[idx sl0] l1] l2] ? ? ? E; injection E as E1 E2 E3; subst; reflexivity
+    | unfold wbody; intros [[[idx sl0] l1] l2] done x rest acc Hg; cbn in Hg; injection Hg as E1 E2 E3; subst sl0 acc idx;
+      unfold goes_on; cbv beta iota zeta; unfold sub_l; rewrite !lget_mid;
+      destruct x as [s [l|]]; cbn [snd fst is_none bind]; [goes_on_now|];
+      pose proof (py_detect_alpha_eq isalpha isupper lower_c mwparse (s, None)) as E; cbn [fst] in E; rewrite <- E; clear E;
+      destruct (py_detect_alpha isalpha isupper lower_c mwparse (s, None)) as [[[pvv [[|w ws]|]] ms]|];
+        cbn [dres_alpha nonempty call truthy]; [goes_on_now| |goes_on_now|reflexivity];
+      destruct ms as [m|]; cbn [call]; rewrite ?ldel_mid; destruct pvv; cbn [call pv_list bind]; rewrite ?ldel_mid;
+        cbn [call pv_list bind]; try reflexivity; rewrite lins_mid; goes_on_now
+    | ]
+  ];
+  specialize (H Hc Hb (drive_fuel sl) sl [] (0, sl, [], []) ([], []) eq_refl);
+  destruct (drive (detect_alpha isalpha isupper lower_c true mwparse) false (drive_fuel sl) sl) as [[out fs]|];
+  [ destruct H as (st' & i & -> & Hg); destruct st' as [[[idx sl'] l1] l2]; rewrite fold_extend2 in Hg;
+    injection Hg as E1 E2 E3 E4; subst; reflexivity
+  | now rewrite H ].
 Qed.
 
 End AlphaDriver.
@@ -623,43 +647,90 @@ Lemma other_detection_cons (x : section) (l : list section) :
                               snd (other_detection [x]) ++ snd (other_detection l)).
 Proof. exact (other_detection_app [x] l). Qed.
 
+(* what other_detection does to one section *)
+Definition relabel (x : section) : section :=
+  match snd x with None => (fst x, Some (LO (len (fst x)))) | Some _ => x end.
+Definition unlabelled_text (x : section) : list str :=
+  match snd x with None => [fst x] | Some _ => [] end.
+
+Lemma other_detection_step (x : section) (l : list section) :
+  other_detection (x :: l) = (relabel x :: fst (other_detection l), unlabelled_text x ++ snd (other_detection l)).
+Proof. unfold other_detection, relabel, unlabelled_text. cbn [fst snd map filter]. destruct x as [s [l0|]]; reflexivity. Qed.
+
+(* the loop written `index = 0; while index < len(section_list): ...; index += 1`
+   (loop-carried variables: index, section_list, other_list) *)
+Section OtherWhile.
+Context {R L' : Type}.
+Notation St := (Z * list section * list str)%type.
+Variable wcond : St -> bool.
+Variable wbody : St -> ctl R St St.
+Hypothesis cond_spec : forall idx sl ol, wcond (idx, sl, ol) = (idx <? llen sl).
+Hypothesis body_spec : forall done x rest ol,
+  wbody (llen done, done ++ x :: rest, ol) = Next (llen done + 1, done ++ relabel x :: rest, ol ++ unlabelled_text x).
+
+Lemma other_while_sim : forall todo done ol,
+  while_ (L' := L') (length todo) (llen done, done ++ todo, ol) wcond wbody =
+  Next (llen done + llen todo, done ++ fst (other_detection todo), ol ++ snd (other_detection todo)).
+Proof.
+  induction todo as [|x todo IH]; intros done ol; cbn [length while_]; rewrite cond_spec, index_in_range; cbn [nonempty].
+  - change (llen (@nil section)) with 0. cbn [other_detection fst snd map filter]. now rewrite Z.add_0_r, !app_nil_r.
+  - rewrite body_spec. specialize (IH (done ++ [relabel x]) (ol ++ unlabelled_text x)).
+    rewrite llen_app, <- !app_assoc in IH. change (llen [relabel x]) with 1 in IH. cbn [app] in IH. rewrite IH.
+    rewrite other_detection_step, llen_cons, Z.add_assoc. cbn [fst snd]. rewrite <- ?app_assoc. reflexivity.
+Qed.
+End OtherWhile.
+
+(* the loop written `for index, section in enumerate(section_list): ... section_list[index] = ...`
+   (loop-carried variables: section_list, other_list; the iterator reads the current list) *)
+Section OtherLive.
+Context {R L' : Type}.
+Notation St := (list section * list str)%type.
+Variable cur : St -> list section.
+Variable body : Z -> section -> St -> ctl R St St.
+Hypothesis cur_spec : forall sl ol, cur (sl, ol) = sl.
+Hypothesis body_spec : forall done x rest ol,
+  body (llen done) x (done ++ x :: rest, ol) = Next (done ++ relabel x :: rest, ol ++ unlabelled_text x).
+
+Lemma other_live_sim : forall todo done ol,
+  for_live (L' := L') (length todo) (llen done) (done ++ todo, ol) cur body =
+  Next (done ++ fst (other_detection todo), ol ++ snd (other_detection todo)).
+Proof.
+  induction todo as [|x todo IH]; intros done ol; cbn [length for_live]; rewrite cur_spec.
+  - rewrite app_nil_r, lget_end. cbn [other_detection fst snd map filter]. now rewrite !app_nil_r.
+  - rewrite lget_mid, body_spec. specialize (IH (done ++ [relabel x]) (ol ++ unlabelled_text x)).
+    rewrite llen_app, <- !app_assoc in IH. change (llen [relabel x]) with 1 in IH. cbn [app] in IH. rewrite IH.
+    rewrite other_detection_step. cbn [fst snd]. rewrite <- ?app_assoc. reflexivity.
+Qed.
+End OtherLive.
+
+(* either shape of the source *)
+Ltac other_body_spec :=
+  intros done x rest ol; cbv beta iota zeta; unfold sub_l; rewrite ?lget_mid;
+  destruct x as [s [l|]]; unfold relabel, unlabelled_text; cbn [snd fst is_none bind];
+  [ now rewrite ?app_nil_r
+  | rewrite lset_mid; cbn [call]; rewrite ?lget_mid; cbn [fst bind]; unfold append; reflexivity ].
+
 Theorem py_other_detection_eq (sl : list section) :
   py_other_detection sl = Some (other_detection sl).
 Proof.
   unfold py_other_detection. cbv zeta.
-  match goal with |- context [while_ _ _ ?c ?b] => set (wcond := c); set (wbody := b) end.
-  assert (W : forall todo done others,
-    while_ (L' := Empty_set) (length todo) (fst (other_detection done) ++ todo, others, llen done) wcond wbody =
-    Next (fst (other_detection (done ++ todo)), others ++ snd (other_detection todo), llen done + llen todo)).
-  { induction todo as [|x todo IH]; intros done others;
-      assert (Hl : llen done = llen (fst (other_detection done)))
-        by (unfold other_detection, llen; cbn [fst]; now rewrite map_length).
-    - cbn [length while_]. unfold wcond. rewrite !app_nil_r.
-      replace (llen done <? llen (fst (other_detection done))) with false.
-      + change (llen (@nil section)) with 0. now rewrite Z.add_0_r.
-      + symmetry. apply Z.ltb_ge. rewrite <- Hl. apply Z.le_refl.
-    - cbn [length while_]. unfold wcond at 1. rewrite Hl at 1. rewrite index_in_range. cbn [nonempty].
-      unfold wbody at 1. cbv beta iota zeta. unfold sub_l. rewrite Hl. rewrite !lget_mid.
-      destruct x as [s [l|]]; cbn [snd fst is_none bind].
-      + specialize (IH (done ++ [(s, Some l)]) others).
-        rewrite other_detection_app in IH.
-        change (other_detection [(s, Some l)]) with ([(s, Some l)], @nil str) in IH. cbn [fst snd] in IH.
-        rewrite <- !app_assoc in IH. cbn [app] in IH. rewrite llen_app in IH. change (llen [(s, Some l)]) with 1 in IH.
-        rewrite <- Hl. rewrite IH.
-        rewrite (other_detection_cons (s, Some l) todo), llen_cons.
-        change (other_detection [(s, Some l)]) with ([(s, Some l)], @nil str). cbn [fst snd app].
-        do 2 f_equal. lia.
-      + rewrite lset_mid. cbn [call]. rewrite lget_mid. cbn [fst append bind].
-        specialize (IH (done ++ [(s, None)]) (others ++ [s])).
-        rewrite other_detection_app in IH.
-        change (other_detection [(s, None)]) with ([(s, Some (LO (len s)))], [s]) in IH. cbn [fst snd] in IH.
-        rewrite <- !app_assoc in IH. cbn [app] in IH. rewrite llen_app in IH. change (llen [(s, None)]) with 1 in IH.
-        rewrite <- Hl. unfold append. rewrite IH.
-        rewrite (other_detection_cons (s, None) todo), llen_cons.
-        change (other_detection [(s, None)]) with ([(s, Some (LO (len s)))], [s]). cbn [fst snd app].
-        do 2 f_equal. lia. }
-  pose proof (W sl [] []) as Hi. change (fst (other_detection [])) with (@nil section) in Hi.
-  change (llen (@nil section)) with 0 in Hi. cbn [app] in Hi. rewrite Hi. cbn [bind run]. now destruct (other_detection sl).
+  first
+  [ (* while index < len(section_list) *)
+    match goal with |- context [while_ _ _ ?c ?b] => set (wcond := c); set (wbody := b) end;
+    assert (Hc : forall idx sl ol, wcond (idx, sl, ol) = (idx <? llen sl)) by reflexivity;
+    assert (Hb : forall done x rest ol,
+      wbody (llen done, done ++ x :: rest, ol) = Next (llen done + 1, done ++ relabel x :: rest, ol ++ unlabelled_text x))
+      by (unfold wbody; other_body_spec);
+    pose proof (other_while_sim (L' := Empty_set) wcond wbody Hc Hb sl [] []) as Hi
+  | (* for index, section in enumerate(section_list) *)
+    unfold for_enum_live;
+    match goal with |- context [for_live _ _ _ ?c ?b] => set (cur := c); set (body := b) end;
+    assert (Hc : forall sl ol, cur (sl, ol) = sl) by reflexivity;
+    assert (Hb : forall done x rest ol,
+      body (llen done) x (done ++ x :: rest, ol) = Next (done ++ relabel x :: rest, ol ++ unlabelled_text x))
+      by (unfold body; other_body_spec);
+    pose proof (other_live_sim (L' := Empty_set) cur body Hc Hb sl [] []) as Hi ];
+  change (llen (@nil section)) with 0 in Hi; cbn [app] in Hi; rewrite Hi; cbn [bind run]; now destruct (other_detection sl).
 Qed.
 
 (* ------------------------------------------------------------------ *)
